@@ -612,10 +612,17 @@ def frame_independence(seed, n):
     from graphslam.pose.r3 import PoseR3
     rng = random.Random(seed)
     fails, evals = [], 0
+    # the first four cases of every run are the landmark-initialisation scenarios (below), so that they do not depend on the draw
+    forced_cases = [('SE2', 'origin'), ('SE3', 'origin'), ('SE2', 'far'), ('SE3', 'far')]
     for i in range(n):
-        kind = rng.choice(['SE2', 'SE3', 'SE3', 'R2', 'R3'])
+        forced = forced_cases[i] if i < len(forced_cases) else None
+        kind = forced[0] if forced else rng.choice(['SE2', 'SE3', 'SE3', 'R2', 'R3'])
         g, _ = build_graph(rng, kind)
-        big = rng.random() < 0.3
+        for _try in range(20):
+            if not forced or any(type(v.pose).__name__ in ('PoseR2', 'PoseR3') for v in g._vertices):
+                break
+            g, _ = build_graph(rng, kind)
+        big = rng.random() < 0.3 and not forced
         sc = (1e4 if rng.random() < 0.5 else 10.0 ** rng.uniform(5, 7)) if big else 5.0        # up to UTM-sized coordinates
         if kind == 'SE2':
             T = PoseSE2([rng.gauss(0, sc), rng.gauss(0, sc)], rng.choice([rng.uniform(-math.pi, math.pi), math.pi - 1e-4, -math.pi + 1e-4]))
@@ -624,7 +631,13 @@ def frame_independence(seed, n):
         else:
             T = np.array([rng.gauss(0, sc) for _ in range(ce.DIM[kind])])
         far_lm = False
-        if kind in ('SE2', 'SE3') and rng.random() < 0.15:
+        lm_mode = forced[1] if forced else (rng.choice(['origin', 'far']) if (kind in ('SE2', 'SE3') and rng.random() < 0.2) else None)
+        if lm_mode == 'origin':
+            # landmarks without an initial guess are commonly created AT THE ORIGIN (exactly zero): a legitimate start like any other
+            for v in g._vertices:
+                if type(v.pose).__name__ in ('PoseR2', 'PoseR3'):
+                    v.pose = type(v.pose)([0.0] * len(np.asarray(v.pose)))
+        if lm_mode == 'far':
             # the survey is ~5 km from the origin and every landmark starts at the origin: the first update of a landmark is thousands of units long
             lm_ = [v for v in g._vertices if type(v.pose).__name__ in ('PoseR2', 'PoseR3')]
             if lm_:
